@@ -239,7 +239,7 @@ class KernelStream(Stream):
     ]
 
     def cases(self, rng, tier):
-        n = 2500 if tier == "quick" else 40000
+        n = 5000 if tier == "quick" else 40000
         for _ in range(n):
             bd = rng.choice([b"bound", b"bound", b"B", b"-", b"a-b"])
             alpha = [a.replace(b"bound", bd).replace(b"boun", bd[:-1]) for a in self.ALPHA]
@@ -302,7 +302,7 @@ class DataKernelStream(Stream):
     ]
 
     def cases(self, rng, tier):
-        n = 2500 if tier == "quick" else 40000
+        n = 5000 if tier == "quick" else 40000
         for _ in range(n):
             bd = rng.choice([b"bound", b"bound", b"B", b"-", b"a-b", b"0123456789" * 3])
             nl = rng.choice([b"\r\n", b"\r\n", b"\n", b"\r"])
@@ -406,7 +406,7 @@ class SplitStream(Stream):
         if tier == "quick":
             # every 2-way split of a rotating slice of the fixed corpus + the three regressions
             start = rng.randrange(len(fixed))
-            sel = [fixed[(start + 7 * i) % len(fixed)] for i in range(24)] + [F01A, F01B]
+            sel = [fixed[(start + 7 * i) % len(fixed)] for i in range(40)] + [F01A, F01B]
         else:
             sel = fixed + [F01A, F01B]
         for bd, body in sel:
@@ -421,7 +421,7 @@ class SplitStream(Stream):
                         for j in range(i + 1, len(body)):
                             yield self.mk(bd, body, [i, j])
         # random bodies of the grammar x random k-way splits, all 2-way splits of a few
-        n = 1500 if tier == "quick" else 30000
+        n = 3000 if tier == "quick" else 30000
         for it in range(n):
             bd, body = rand_body(rng)
             L = len(body)
@@ -565,7 +565,7 @@ class FormStream(Stream):
             bd, body = fixed[(start + 11 * t) % len(fixed)]
             for bs in range(1, len(body) + 2):
                 yield self.mk(bd, body, bs, [])
-        for it in range(600 if tier == "quick" else 12000):
+        for it in range(1500 if tier == "quick" else 12000):
             bd, body = rand_body(rng)
             L = len(body)
             bs = rng.choice([1, 2, 3, 5, 8, 13, 64, L, L + 1, rng.randrange(1, L + 2)])
